@@ -22,11 +22,12 @@ type Menu struct {
 	StopEarly   bool // stop parsing early and append more data
 	ShrinkDev   bool // skip Shrink, Shrink twice, Shrink while unparsed data is buffered
 	Reset       bool // Reset(nil) and Reset(data) with several capacities
+	Trickle     bool // not a deviation but another default history: Write BlockSize+1 bytes, ONE Parse, write again ... (data is appended while unparsed data is pending), drain at the end
 	Restart     bool // Reset(data) that restarts the stream from the beginning of the input (1 byte with 7 spare bytes, or a full buffer without spare capacity)
 }
 
 // FullMenu offers every deviation.
-var FullMenu = Menu{true, true, true, true, true, true, true, false}
+var FullMenu = Menu{WriteChunks: true, ReadFrom: true, NTL: true, ParseNil: true, StopEarly: true, ShrinkDev: true, Reset: true}
 
 // PCase identifies one execution of the parser-history driver.
 type PCase struct {
@@ -509,6 +510,8 @@ outer:
 				q := rem
 				if op > 0 {
 					q = rem[:op]
+				} else if h.Menu.Trickle {
+					q = rem[:min(len(rem), h.BC.BlockSize+1)]
 				}
 				h.Last.BufLen = len(h.Stream) - h.Off
 				h.inLib = true
@@ -610,6 +613,10 @@ outer:
 				h.Fail("parse-loop", "more than %d Parse calls without draining the buffer", guard)
 				h.St.Pruned++
 				break outer
+			}
+			if h.Menu.Trickle && guard >= 1 && fed < len(in) && B-(len(h.Stream)-h.Off) > 0 {
+				progress = true // trickle mode: one Parse per Write while input remains and the buffer has room
+				break parse
 			}
 			unparsed := len(h.Stream) - h.Pos
 			room := B - (len(h.Stream) - h.Off)
